@@ -254,7 +254,8 @@ struct Driver
         o << "{\"k\":\"" << names[PL::template kind<I>()] << "\",\"sz\":" << sizeof(T)
           << ",\"al\":" << PL::template Info<I>::al
           << ",\"triv\":" << (std::is_trivially_copyable_v<T> ? 1 : 0)
-          << ",\"flt\":" << (std::is_floating_point_v<T> ? 1 : 0) << "}";
+          << ",\"flt\":" << (std::is_floating_point_v<T> ? 1 : 0)
+          << ",\"sgn\":" << ((std::is_integral_v<T> && std::is_signed_v<T>) ? 1 : 0) << "}";
         return o.str();
     }
     template <std::size_t... I>
@@ -676,6 +677,78 @@ struct Driver
         return o.str();
     }
 
+    // ---------------------------------------------------------------- API surface (C20 group API)
+    // Documented forms that no scenario needs as an operation of its own; executed once by the "ApiSurface" op on a
+    // live, non-empty vector so that they are instantiated AND run (results are folded into one number that the
+    // trace ignores; a crash or sanitizer report is a verdict like any other).
+#ifndef VERIF_NO_API
+    long api_surface(Vec& vec)
+    {
+        const Vec& cvec = vec;
+        long acc = 0;
+        // iterators: default construction, conversions, converting assignment, arrow, reverse/const begin-end
+        typename Vec::iterator it0 = vec.begin();
+        typename Vec::const_iterator cit0 = cvec.end();
+        cit0 = it0;                                     // iterator -> const_iterator (converting assignment)
+        typename Vec::const_iterator cit1(it0);         // converting construction
+        acc += static_cast<long>(cit1.index()) + (cit0 == cit1 ? 1 : 0) + (cvec.cbegin() == cvec.begin() ? 1 : 0) +
+               (cvec.cend() - cvec.cbegin());
+        acc += static_cast<long>(it0->size_in_bytes());  // operator-> (ArrowProxy)
+        auto rb = std::make_reverse_iterator(vec.end());
+        acc += static_cast<long>((*rb).size_in_bytes());
+        // references: copy construction, conversion to const, structured bindings of const references
+        typename Vec::reference r = vec[0];
+        typename Vec::const_reference cr = r;
+        typename Vec::const_reference cr2 = cvec[0];
+        acc += SB<N>::apply(cr2, [](auto&&...) { return 1; });
+        acc += (cr == cr2 ? 1 : 0) + (r == cr ? 1 : 0) + (cr != r ? 1 : 0) + (r <= cr ? 1 : 0) + (cr >= r ? 1 : 0);
+        acc += static_cast<long>(cr.data_end() - cr.data_begin());
+        // elements: every constructor form, get<I> on lvalue / const / rvalue, conversion back to a reference
+#ifndef VERIF_NO_ELEM
+        Elem e1(cr);                                    // from const reference, default allocator
+        Elem e2(cr, cvec.get_allocator());              // ... with allocator
+        Elem e3(e1);                                    // copy
+        Elem e4(std::move(e3));                         // move
+        Elem e5(e1, cvec.get_allocator());              // allocator-extended copy
+        Elem e6(std::move(e5), cvec.get_allocator());   // allocator-extended move
+        const Elem& ce1 = e1;
+        acc += (e1 == e2 ? 1 : 0) + (e4 == ce1 ? 1 : 0) + (e6 != e1 ? 1 : 0) + (e1 < e2 ? 1 : 0) + (e1 >= e2 ? 1 : 0);
+        acc += (ce1 == cr ? 1 : 0) + (cr == ce1 ? 1 : 0) + (e1 <= r ? 1 : 0) + (r > e1 ? 1 : 0);
+        typename Vec::const_reference from_elem(ce1);
+        typename Vec::reference from_elem_mut(e1);
+        acc += (from_elem == from_elem_mut ? 1 : 0);
+        acc += api_get_forms(e1, ce1, std::make_index_sequence<N>{});
+#ifndef VERIF_NO_ELEM_SB
+        acc += SB<N>::apply(ce1, [](auto&&...) { return 1; });   // const auto& [a, b, ...] = element
+#endif
+        using std::swap;
+        swap(e1, e2);
+        e2 = e1;
+        e4 = std::move(e2);
+        acc += e1.get_allocator() == cvec.get_allocator() ? 1 : 0;
+#endif
+        // vector: data(), memory_consumption(), get_fixed_size, comparison with itself through a const view
+        acc += (vec.data() == cvec.data() ? 1 : 0) + (vec.data_begin() <= vec.data_end() ? 1 : 0) +
+               static_cast<long>(cvec.memory_consumption() > 0) + (cvec == vec ? 1 : 0) + (cvec <= vec ? 1 : 0);
+        acc += (vec.front() == cvec.front() ? 1 : 0) + (vec.back() == cvec.back() ? 1 : 0);
+        for (auto&& ref : vec) acc += static_cast<long>(ref.size_in_bytes() > 0);
+        for (auto&& ref : cvec) acc += static_cast<long>(ref.size_in_bytes() > 0);
+        return acc;
+    }
+#ifndef VERIF_NO_ELEM
+    template <std::size_t... I>
+    static long api_get_forms(Elem& e, const Elem& ce, std::index_sequence<I...>)
+    {
+        long n = 0;
+        (((void)cntgs::get<I>(e), ++n), ...);
+        (((void)cntgs::get<I>(ce), ++n), ...);
+        Elem tmp(ce);
+        ((void)cntgs::get<I>(std::move(tmp)), ...);     // get<I>(Element&&)
+        return n;
+    }
+#endif
+#endif
+
     // ---------------------------------------------------------------- comparison truth tables (C13, C14)
 #ifndef VERIF_NO_CMP
     template <class A, class B>
@@ -1087,6 +1160,13 @@ struct Driver
             else if (op.n == "IterProbe")
             {
                 itab = iter_table(V(v));
+#ifndef VERIF_NO_API
+                if (V(v).size() > 0)
+                {
+                    (void)api_surface(V(v));   // temporaries only: nothing the vector holds changes
+                    ledger().take_sub();       // the temporaries' allocations are balanced; not part of the probe
+                }
+#endif
             }
 #ifndef VERIF_NO_ELEM
             else if (op.n == "ElemFromRef")
